@@ -1825,3 +1825,155 @@ async fn block_file_with_one_corrupt_byte_is_refused_by_the_disk_loader() {
     let panicked = matches!(&result, Err(e) if e.is_panic());
     if !(!panicked) { witness(format!("Storage::load_blocks_from_disk panicked on a block file that differs from a valid one in 1 byte (slip_index of input 2 at offset {} set from 1 to 0): Block::generate() returned Err(double-spend) and the loader unwraps it, so bytes from disk crash the node at startup instead of being rejected", offset)); }
 }
+
+/// C10 (bytes from disk are rejected, never crash) kept honest: a start-up that meets one block file it cannot use still loads, and keeps, the intact files after it
+#[tokio::test]
+#[serial_test::serial]
+async fn unusable_block_file_does_not_cost_the_files_after_it() {
+    #[allow(unused_imports)] use std::fs;
+    #[allow(unused_imports)] use crate::core::util::test::node_tester::test::NodeTester;
+    #[allow(unused_imports)] use crate::core::defs::NOLAN_PER_SAITO;
+    #[allow(unused_imports)] use crate::core::defs::PrintForLog;
+    #[allow(unused_imports)] use crate::core::consensus::block::Block;
+    use crate::core::consensus::block::BlockType;
+    use crate::core::consensus::transaction::TransactionType;
+    use futures::FutureExt;
+    use std::panic::AssertUnwindSafe;
+
+    // the chain: five honest blocks produced by a node, each after the first with one payment
+    NodeTester::delete_data().await.unwrap();
+    let mut tester = NodeTester::new(100, None, None);
+    let public_key = tester.get_public_key().await;
+    let private_key = tester.get_private_key().await;
+    tester.set_staking_requirement(2 * NOLAN_PER_SAITO, 8).await;
+    let issuance = vec![
+        (public_key.to_base58(), 8 * 2 * NOLAN_PER_SAITO),
+        (public_key.to_base58(), 100 * NOLAN_PER_SAITO),
+        (
+            "27UK2MuBTdeARhYp97XBnCovGkEquJjkrQntCgYoqj6GC".to_string(),
+            50 * NOLAN_PER_SAITO,
+        ),
+    ];
+    tester.set_issuance(issuance.clone()).await.unwrap();
+    tester.init().await.unwrap();
+    tester.wait_till_block_id(1).await.unwrap();
+    let mut blocks: Vec<Block> = vec![tester
+        .consensus_thread
+        .blockchain_lock
+        .read()
+        .await
+        .get_latest_block()
+        .cloned()
+        .unwrap()];
+    for i in 2..=5u64 {
+        let tx = tester
+            .create_transaction(NOLAN_PER_SAITO, 0, public_key)
+            .await
+            .unwrap();
+        tester.add_transaction(tx).await;
+        tester.wait_till_block_id(i).await.unwrap();
+        blocks.push(
+            tester
+                .consensus_thread
+                .blockchain_lock
+                .read()
+                .await
+                .get_latest_block()
+                .cloned()
+                .unwrap(),
+        );
+    }
+    assert_eq!(blocks.len(), 5, "setup: five blocks");
+    let timer = tester.consensus_thread.timer.clone();
+    let file_path =
+        |block: &Block| -> String { "./data/blocks/".to_string() + block.get_file_name().as_str() };
+
+    // control: the node restarted on its five intact files holds the whole chain and keeps the files
+    {
+        NodeTester::delete_data().await.unwrap();
+        let mut tester = NodeTester::new(100, Some(private_key), Some(timer.clone()));
+        tester.set_staking_requirement(2 * NOLAN_PER_SAITO, 8).await;
+        for block in blocks.iter() {
+            tester
+                .consensus_thread
+                .storage
+                .write_block_to_disk(block)
+                .await;
+        }
+        tester.init().await.unwrap();
+        assert_eq!(
+            tester
+                .consensus_thread
+                .blockchain_lock
+                .read()
+                .await
+                .get_latest_block_id(),
+            5,
+            "setup: the node loads its five block files"
+        );
+        for block in blocks.iter() {
+            assert!(
+                fs::metadata(file_path(block)).is_ok(),
+                "setup: start-up keeps the block files"
+            );
+        }
+    }
+
+    // the damaged copy of block 3: same header (same file name), one input named twice
+    let mut damaged =
+        Block::deserialize_from_net(&blocks[2].serialize_for_net(BlockType::Full)).unwrap();
+    let position = damaged
+        .transactions
+        .iter()
+        .position(|tx| {
+            tx.transaction_type == TransactionType::Normal
+                && tx.from.iter().any(|input| input.amount > 0)
+        })
+        .expect("setup: block 3 carries a payment");
+    let mut payment = damaged.transactions.remove(position);
+    let twice = payment
+        .from
+        .iter()
+        .find(|input| input.amount > 0)
+        .unwrap()
+        .clone();
+    payment.from.push(twice);
+    damaged.transactions.insert(0, payment);
+    let damaged_bytes = damaged.serialize_for_net(BlockType::Full);
+    {
+        let mut check = Block::deserialize_from_net(&damaged_bytes)
+            .expect("setup: the damaged file still decodes");
+        assert!(
+            check.generate().is_err(),
+            "setup: the damaged file cannot be generated"
+        );
+        assert_eq!(
+            check.get_file_name(),
+            blocks[2].get_file_name(),
+            "setup: the damaged block goes by the file name of block 3"
+        );
+    }
+
+    NodeTester::delete_data().await.unwrap();
+    let mut tester = NodeTester::new(100, Some(private_key), Some(timer));
+    tester.set_staking_requirement(2 * NOLAN_PER_SAITO, 8).await;
+    for block in blocks.iter() {
+        tester
+            .consensus_thread
+            .storage
+            .write_block_to_disk(block)
+            .await;
+    }
+    fs::write(file_path(&blocks[2]), &damaged_bytes).unwrap();
+    for block in blocks.iter() {
+        assert!(
+            fs::metadata(file_path(block)).is_ok(),
+            "setup: five block files on disk"
+        );
+    }
+
+    // start-up (before 3651f67 it stopped here with a panic and touched nothing)
+    let _ = AssertUnwindSafe(tester.init()).catch_unwind().await;
+
+    if !(fs::metadata(file_path(&blocks[3])).is_ok() && fs::metadata(file_path(&blocks[4])).is_ok()) { witness(format!("a start-up that meets one block file it cannot use erases the intact block files that come after it from disk (the loader gives up at that file and the start-up clean-up deletes whatever was not loaded), where the node used to stop and leave its files alone: broken by 3651f67")); }
+}
